@@ -43,6 +43,10 @@ def gen_case(rnd, tier: str, i: Any) -> Dict[str, Any]:
         # host events like any other (cpu_bound)
         over["ops_pool"] = rnd.sample(gen_sim.OPS, 3) + rnd.sample(["<built-in method run_backward of torch._C._EngineBase object at 0x7f>", "<lambda>",
                                                                    "(anonymous)", "<forward>"], 2)
+    elif rnd.random() < 0.3:
+        # operators named like the kernels they launch (Triton / torch.compile wrappers, NCCL's host-side record_function): the class of a
+        # span edge follows the side of ITS event, not the event's name (seed C10-Q classified once per name)
+        over["ops_pool"] = rnd.sample(gen_sim.OPS, 3) + rnd.sample(gen_sim.COMP, 2) + rnd.sample(gen_sim.COMM, 1)
     return cpdrv.gen_case(rnd, tier, i, **dict(dict(max_depth=rnd.choice([3, 4, 5]), ops_per_step=rnd.choice([(2, 5), (3, 8)])), **over))
 
 
